@@ -182,6 +182,11 @@ func (e *Exec) callFunc(s *State, ins ssa.Instruction, callee *ssa.Function, arg
 		}
 		return nil
 	}
+	// a callee without contract that takes a mutex this thread already holds: sync.Mutex and
+	// sync.RWMutex are not re-entrant (a second RLock deadlocks as soon as a writer is waiting)
+	if len(s.held) > 0 && callee.Blocks != nil {
+		e.reentrantThroughCall(s, callee, pos)
+	}
 	// unknown callee: havoc everything
 	e.logAbs("call to %s without contract: all heaps havocked, results unconstrained", shortFuncName(full))
 	e.havocAllHeaps(s)
@@ -1322,4 +1327,36 @@ func requiresProps(clause, callee, caller []string) []string {
 		return clause
 	}
 	return unionProps(callee, caller)
+}
+
+// reentrantThroughCall: the callee (no contract) locks a mutex field of a monitor type whose mutex is
+// held at this call.
+func (e *Exec) reentrantThroughCall(s *State, callee *ssa.Function, pos token.Pos) {
+	for _, b := range callee.Blocks {
+		for _, ins := range b.Instrs {
+			c, ok := ins.(*ssa.Call)
+			if !ok {
+				continue
+			}
+			f, ok := c.Call.Value.(*ssa.Function)
+			if !ok || mutexOp(f.String()) == "" || mutexOp(f.String()) == "unlock" || mutexOp(f.String()) == "runlock" || len(c.Call.Args) == 0 {
+				continue
+			}
+			fa, ok := c.Call.Args[0].(*ssa.FieldAddr)
+			if !ok {
+				continue
+			}
+			n, ok := derefType(fa.X.Type()).(*types.Named)
+			if !ok {
+				continue
+			}
+			st := n.Underlying().(*types.Struct)
+			for _, h := range s.held {
+				if h.Mon != nil && h.Mon.TypeName == n.Obj().Name() && h.Mon.MutexField == st.Field(fa.Field).Name() {
+					e.addObl(s, e.oblName("monitor/"+h.Key+"/no-reentrant-lock-through-call"), "monitor", Not(s.pc), pos,
+						"call to "+callee.Name()+" locks "+h.Key+" while it is already held")
+				}
+			}
+		}
+	}
 }
